@@ -228,16 +228,70 @@ Proof.
   - apply (shard_single_put ops st H).
 Qed.
 
-Lemma proxy_case_pred k sharded st : mrun true minit (proxy_ops k sharded) = Some st ->
-  pred_ok (CProxy k sharded (negb (nodup_n (mpool st)))) = true.
+Lemma nodup_app_l {A} : forall (l l2 : list A), NoDup (l ++ l2) -> NoDup l.
 Proof.
-  intro H. cbn [pred_ok]. rewrite negb_involutive. apply nodup_n_spec.
-  pose proof (shard_single_put _ _ H) as N.
-  generalize dependent (somes (held st)). generalize (mpool st). clear.
   induction l as [|x l IH]; intros l2 N; [constructor|].
   cbn in N. inversion N as [|? ? Hx Hn]; subst. constructor; [|apply (IH l2 Hn)].
   intro Hin. apply Hx. apply in_app_iff. left. exact Hin.
 Qed.
+
+(* ---- C. any number of concurrent requests ------------------------------------------------ *)
+
+Lemma pxstep_inv st e st' : minv (px_m st) -> pxstep true st e = Some st' -> minv (px_m st').
+Proof.
+  intros I H. destruct e as [req sh got|req sh got|req k site]; cbn [pxstep] in H.
+  - destruct (mstep true (px_m st) (MNew sh got)) as [m'|] eqn:E; [|discriminate].
+    inversion H; subst. cbn [px_m]. apply (mstep_inv _ _ _ I E).
+  - destruct (mstep true (px_m st) (MNew sh got)) as [m'|] eqn:E; [|discriminate].
+    inversion H; subst. cbn [px_m]. apply (mstep_inv _ _ _ I E).
+  - destruct (nth_error (sets_of req (px_sets st)) k) as [m|]; [|discriminate].
+    destruct (mstep true (px_m st) (MClose m)) as [m'|] eqn:E; [|discriminate].
+    inversion H; subst. cbn [px_m]. apply (mstep_inv _ _ _ I E).
+Qed.
+
+Lemma pxrun_inv : forall es st st', minv (px_m st) -> pxrun true st es = Some st' -> minv (px_m st').
+Proof.
+  induction es as [|e r IH]; intros st st' I H; cbn [pxrun] in H; [inversion H; subst; exact I|].
+  destruct (pxstep true st e) as [s1|] eqn:E; [|discriminate]. apply (IH s1 st' (pxstep_inv st e s1 I E) H).
+Qed.
+
+(* every reachable state of any number of interleaved requests — response sets opened, dropped
+   unopened, closed any number of times from any of the call sites — has each buffer at most
+   once in the pool, and no pooled buffer is held by an open response set *)
+Lemma px_single_put es st : pxrun true pxinit es = Some st ->
+  NoDup (mpool (px_m st) ++ somes (held (px_m st))).
+Proof. intro H. apply (pxrun_inv es pxinit st minit_inv H). Qed.
+
+Lemma proxy_case_pred reqs k nfail sharded st :
+  pxrun true pxinit (px_requests reqs k nfail sharded 0 0) = Some st ->
+  pred_ok (CProxy reqs k nfail sharded (negb (nodup_n (mpool (px_m st))))) = true.
+Proof.
+  intro H. cbn [pred_ok]. rewrite negb_involutive. apply nodup_n_spec.
+  apply (nodup_app_l _ _ (px_single_put _ _ H)).
+Qed.
+
+Lemma px_unfixed_refuted :
+  option_map (fun st => mpool (px_m st))
+    (pxrun false pxinit [EvOpen 0 true 0; EvClose 0 0 CSExhausted; EvClose 0 0 CSDeferred]) = Some [0; 0] /\
+  option_map (fun st => mpool (px_m st))
+    (pxrun true pxinit [EvOpen 0 true 0; EvOpenFail 0 true 1; EvOpen 1 true 2; EvClose 0 0 CSExhausted; EvClose 1 0 CSErrorPath;
+                        EvClose 0 0 CSDeferred; EvClose 1 0 CSTreeClose; EvClose 1 0 CSDeferred]) = Some [2; 0].
+Proof. split; reflexivity. Qed.
+
+(* the call sites of the model's close_site, in the source *)
+Lemma close_sites_in_source :
+  loserTreeCloseSites = ["Close: t.close(e.items)"; "moveNext: t.close(n.items)"]%string /\
+  proxySeriesCloseCalls = ["defer respSet.Close"]%string /\
+  bucketSeriesCloseCalls = ["defer blockClient.Close"; "call resp.Close"; "defer lt.Close"]%string /\
+  newAsyncRespSetCloseCalls = []%string /\
+  newAsyncRespSetOpenEvents =
+    [("call", "storeInfo"); ("call", "grpc_opentracing.ClientAddContextTags"); ("call", "context.WithCancel");
+     ("call", "shardInfo.Matcher"); ("call", "st.SupportsSharding"); ("if", "applySharding"); ("call", "st.String");
+     ("call", "level.Debug"); ("call", "level.Debug().Log"); ("endif", ""); ("call", "st.Series"); ("if", "err != nil");
+     ("call", "errors.Wrapf"); ("call", "cancel"); ("return", "nil, err"); ("endif", "")]%string /\
+  In "s.Close"%string loserTreeCloseCalls /\
+  In "l.shardMatcher.Close"%string lazyRespSetCloseCalls /\ In "l.shardMatcher.Close"%string eagerRespSetCloseCalls.
+Proof. repeat split; try reflexivity; cbn; tauto. Qed.
 
 (* before the fix: one matcher closed twice leaves its buffer in the pool twice, and the next
    two matchers both get it *)
